@@ -24,4 +24,65 @@ PROPS = {
                        "the engine evaluates the real Committee::{quorum_threshold,stake} of both crates and the model on the same committees "
                        "and checks the property's inequalities on the real values.",
     },
+    "C20": {
+        "lean_modules": ["HotstuffModel.Properties.C20"],
+        "engines": [{"name": "codec"}],
+        "level": "proof",
+        "trusted_base": TB_COMMON + [
+            "bincode 1.3 / serde implement the fixint little-endian format as modelled in Model/Bincode.lean (checked byte-for-byte by the codec engine on every run, not proved)",
+        ],
+        "assumptions": [
+            "SHA-512 truncated to 32 bytes has no collision among the pre-images that occur (theorems conclude 'fields equal OR an explicit collision H x = H y, x != y')",
+            "rounds < 2^64 and list lengths < 2^64 (guaranteed by the Rust types u64/usize; proved for every decoded message)",
+        ],
+        "explanation": "Pre-image layouts (block 72+32k bytes, vote/QC 40, timeout/TC-entry 16) are proved injective in their fields and separated by length; "
+                       "decode(encode m ++ rest) = (m, rest) is proved for every wire type, for the sync path and for the batch pre-image; every decoded message is proved well-formed. "
+                       "The engine compares real digest() with SHA-512(model pre-image)[..32], real bincode bytes with model bytes, real deserialize (accept/reject/re-serialisation/digest) "
+                       "with the model's, and runs digest-separation and round-trip-verifies monitors on the real code.",
+    },
+    "C18": {
+        "lean_modules": ["HotstuffModel.Properties.C18"],
+        "engines": [{"name": "codec"}],
+        "level": "proof",
+        "level_text": "PARTIAL: the key/text encoders are proved (base64 and key round trips, JSON string layer is the identity on key text); the signature half of the property "
+                      "(ed25519 sign/verify/verify_batch) cannot be proved here (would need a verified Edwards25519+SHA-512) and is exercised differentially on the real code only.",
+        "trusted_base": TB_COMMON + [
+            "crate base64 0.13 STANDARD behaves as Model/Base64.lean (checked differentially, incl. exhaustive small-alphabet strings)",
+        ],
+        "assumptions": [
+            "ed25519 (sign / verify_strict / verify_batch of ed25519-dalek) is NOT proved: exercised differentially only (sign->verify, all single-bit flips per key pair, batches 0..16 with one corrupted member at each position)",
+            "JSON: only the string layer is modelled (escape-free reader); Secret/Committee files are round-tripped through the real Export::write/read",
+        ],
+        "explanation": "decode(encode bs) = bs for all byte strings, decodeKey(encodeKey k) = k for all 32/64-byte keys, key text needs no JSON escaping so the JSON string layer is the identity (all proved); "
+                       "the signature half of the property is tested on the real code, not proved.",
+    },
+    "C16": {
+        "lean_modules": ["HotstuffModel.Properties.C16"],
+        "engines": [{"name": "store"}],
+        "level": "proof",
+        "trusted_base": TB_COMMON + [
+            "RocksDB as a durable map (put/get; data survives close+open of the same path)",
+            "tokio mpsc channels are FIFO per sender; a command sequence is the order in which the store task dequeues",
+        ],
+        "assumptions": [
+            "every interleaving of concurrent handles is some command sequence respecting per-handle order (mpsc FIFO)",
+            "db.put errors are ignored by the code and not modelled",
+        ],
+        "explanation": "Store actor modelled as kv map + obligations; theorems for every command sequence (read = last write, notify answered immediately or by the first later write, all waiters, exactly once, reopen keeps data); "
+                       "the engine drives the real Store (RocksDB) from several handles with forced enqueue order and compares every reply and wake-up step with the model and with a reference map.",
+    },
+    "C12": {
+        "lean_modules": ["HotstuffModel.Properties.C12"],
+        "engines": [{"name": "quorumwaiter"}],
+        "level": "proof",
+        "trusted_base": TB_COMMON + [
+            "FuturesUnordered/oneshot: a handler completes when its sender is used or dropped",
+        ],
+        "assumptions": [
+            "handler names of one batch are distinct (BatchMaker builds them from the committee map)",
+            "the code counts a DROPPED handle like an ACK (`let _ = wait_for.await`); C14 shows the reliable sender never drops a live handle",
+        ],
+        "explanation": "QuorumWaiter modelled as a sequential actor serving one batch at a time; theorems: forwarded only with quorum stake incl. self, at most once, exactly at the crossing step, FIFO across batches, >= f+1 honest stake among ackers (via C17); "
+                       "the engine drives the real QuorumWaiter with harness-made oneshot handles in every ACK order / silent subset and compares with the model and an independent stake monitor.",
+    },
 }
